@@ -147,8 +147,185 @@ def gen_c14_scans(ctx):
          detail='; '.join(bad))
 
 
+# --------------------------------------------------------------------------------------------- C17
+STATUTORY = {
+    'droop.rules.scotland': {'arithmetic', 'precision', 'display'},
+    'droop.rules.mpls': {'arithmetic', 'precision', 'display'},
+    'droop.rules.wigm_prf': {'arithmetic', 'precision', 'display', 'rule'},
+    'droop.rules.cfer': {'arithmetic', 'precision', 'display', 'rule'},
+    'droop.rules.meek_prf': {'arithmetic', 'precision', 'display', 'omega'},
+    'droop.rules.qpq': {'arithmetic', 'precision', 'guard', 'display'},
+}
+
+
+def option_names_used(module):
+    "string literals passed as the option name to getopt/setopt, and any non-literal use"
+    names, dynamic = set(), []
+    for n in ast.walk(module.tree):
+        if isinstance(n, ast.Call) and isinstance(n.func, ast.Attribute) and n.func.attr in ('getopt', 'setopt'):
+            if n.args and isinstance(n.args[0], ast.Constant) and isinstance(n.args[0].value, str):
+                names.add(n.args[0].value)
+            else:
+                dynamic.append(n.lineno)
+    return names, dynamic
+
+
+def gen_c17_scans(ctx):
+    repo = ctx.repo
+    P = ['C17']
+    for mn, allowed in STATUTORY.items():
+        m = repo.module(mn)
+        names, dyn = option_names_used(m) if m else (set(), [0])
+        scan(ctx, P, mn, 'option-frame',
+             'a statutory rule reads no option other than the ones it forces (and its own name)',
+             m is not None and names <= allowed and not dyn, detail='reads %s dynamic@%s' % (sorted(names), dyn))
+        # the rule object never looks at the option dictionaries directly
+        direct = []
+        if m is not None:
+            for n in ast.walk(m.tree):
+                if isinstance(n, ast.Attribute) and n.attr in ('cmd_options', 'file_options', 'force', 'default'):
+                    direct.append(n.lineno)
+        scan(ctx, P, mn, 'no-direct-layer-access', 'rule code reaches options only through getopt/setopt', not direct,
+             detail=str(direct))
+    # values/*.py read only arithmetic/precision/guard/display
+    for mn in ('droop.values.fixed', 'droop.values.guarded', 'droop.values.rational', 'droop.values'):
+        m = repo.module(mn)
+        names, dyn = option_names_used(m) if m else (set(), [0])
+        scan(ctx, P, mn, 'option-frame', 'arithmetic classes read arithmetic/precision/guard/display only',
+             m is not None and names <= {'arithmetic', 'precision', 'guard', 'display'} and not dyn,
+             detail='reads %s' % sorted(names))
+    # merge order in Election.__init__: file options -> rule.options() -> ArithmeticClass
+    f = repo.resolve('droop.election.Election.__init__')
+    order = []
+    if f is not None:
+        for n in ast.walk(f.node):
+            if isinstance(n, ast.Call):
+                src = norm_src(n)
+                if src.startswith('options.update(') and 'file_options=True' in src:
+                    order.append(('update', n.lineno))
+                elif src == 'self.rule.options()':
+                    order.append(('rule.options', n.lineno))
+                elif src.startswith('values.ArithmeticClass('):
+                    order.append(('ArithmeticClass', n.lineno))
+    order.sort(key=lambda x: x[1])
+    scan(ctx, P, 'droop.election.Election.__init__', 'merge-order',
+         'ballot-file options are merged as the file layer before rule.options(), which precedes ArithmeticClass',
+         [o[0] for o in order] == ['update', 'rule.options', 'ArithmeticClass'], detail=str(order))
+    # count() of statutory rules does not call getopt at all except the name (frame for "identical count")
+    for mn in STATUTORY:
+        m = repo.module(mn)
+        cnt = repo.resolve(mn + '.Rule.count')
+        bad = []
+        if cnt is not None:
+            for n in ast.walk(cnt.node):
+                if isinstance(n, ast.Attribute) and n.attr in ('getopt', 'setopt', 'options'):
+                    bad.append(n.lineno)
+        scan(ctx, P, mn + '.Rule.count', 'count-reads-no-option', 'the count itself reads no option', cnt is not None and not bad,
+             detail=str(bad))
+
+
+# --------------------------------------------------------------------------------------------- C20
+VALUE_CLASSES = {'droop.values.fixed': 'Fixed', 'droop.values.guarded': 'Guarded', 'droop.values.rational': 'Rational'}
+
+
+def gen_c20_scans(ctx):
+    repo = ctx.repo
+    P = ['C20']
+    # class attributes of the arithmetic classes are written only in initialize (and the comparison statistics in __cmp__)
+    for mn, cn in VALUE_CLASSES.items():
+        m = repo.module(mn)
+        bad = []
+        if m is not None:
+            ci = m.classes.get(cn)
+            for meth in (ci.methods.values() if ci else []):
+                for n in ast.walk(meth.node):
+                    tgts = []
+                    if isinstance(n, ast.Assign):
+                        tgts = n.targets
+                    elif isinstance(n, ast.AugAssign):
+                        tgts = [n.target]
+                    for t in tgts:
+                        if isinstance(t, ast.Attribute) and isinstance(t.value, ast.Name) and t.value.id in ('cls', cn):
+                            ok = meth.name == 'initialize' or (meth.name == '__cmp__' and t.attr in ('maxDiff', 'minDiff'))
+                            if not ok:
+                                bad.append('%s.%s in %s' % (t.value.id, t.attr, meth.name))
+                    if isinstance(n, ast.Call) and isinstance(n.func, ast.Name) and n.func.id == 'setattr':
+                        bad.append('setattr in %s' % meth.name)
+        scan(ctx, P, mn, 'class-writes', 'class attributes of %s are written only by initialize()' % cn +
+             (' and the statistics in __cmp__' if cn == 'Guarded' else ''), m is not None and not bad, detail='; '.join(bad))
+    # nobody outside values/ assigns attributes of the arithmetic class
+    bad = []
+    for mn, m in repo.modules.items():
+        if mn.startswith('droop.values'):
+            continue
+        for n in ast.walk(m.tree):
+            tgts = n.targets if isinstance(n, ast.Assign) else ([n.target] if isinstance(n, ast.AugAssign) else [])
+            for t in tgts:
+                if isinstance(t, ast.Attribute):
+                    b = t.value
+                    if (isinstance(b, ast.Name) and b.id in ('V', 'Fixed', 'Guarded', 'Rational')) or \
+                            (isinstance(b, ast.Attribute) and b.attr == 'V'):
+                        bad.append('%s:%d' % (mn, n.lineno))
+    scan(ctx, P, 'droop/**/*.py', 'no-foreign-class-writes', 'no module outside values/ assigns an attribute of the arithmetic class',
+         not bad, detail=str(bad))
+    # no other process-global state: no `global`, no module-level container mutated from a function
+    bad = []
+    for mn, m in repo.modules.items():
+        if mn == 'Droop':
+            continue
+        mod_names = set(m.globals_) | {t.id for s_ in m.tree.body if isinstance(s_, ast.Assign) for t in s_.targets
+                                       if isinstance(t, ast.Name)}
+        for fn in [f for f in repo.all_functions() if f.module is m]:
+            local = {a.arg for a in fn.node.args.args} | {n.id for n in ast.walk(fn.node) if isinstance(n, ast.Name) and isinstance(n.ctx, ast.Store)}
+            for n in ast.walk(fn.node):
+                if isinstance(n, (ast.Global, ast.Nonlocal)):
+                    bad.append('%s: %s in %s' % (mn, type(n).__name__.lower(), fn.name))
+                tgts = n.targets if isinstance(n, ast.Assign) else ([n.target] if isinstance(n, ast.AugAssign) else [])
+                for t in tgts:
+                    if isinstance(t, ast.Subscript) and isinstance(t.value, ast.Name) and t.value.id in mod_names and \
+                            t.value.id not in local:
+                        bad.append('%s: %s[...] written in %s' % (mn, t.value.id, fn.name))
+                if isinstance(n, ast.Call) and isinstance(n.func, ast.Attribute) and isinstance(n.func.value, ast.Name) and \
+                        n.func.value.id in mod_names and n.func.value.id not in local and \
+                        n.func.attr in ('append', 'extend', 'add', 'update', 'pop', 'clear', 'remove', 'setdefault', 'insert'):
+                    bad.append('%s: %s.%s() in %s' % (mn, n.func.value.id, n.func.attr, fn.name))
+    scan(ctx, P, 'droop/**/*.py', 'no-module-state', 'no function mutates module-level state (no global statements, no '
+         'module-level containers written after import)', not bad, detail='; '.join(bad))
+    # rule classes: class-level constants are never assigned through the class
+    bad = []
+    for mn in RULE_MODULES + ['droop.rules.electionmethods', 'droop.rules.electionrule']:
+        m = repo.module(mn)
+        for n in ast.walk(m.tree):
+            tgts = n.targets if isinstance(n, ast.Assign) else ([n.target] if isinstance(n, ast.AugAssign) else [])
+            for t in tgts:
+                if isinstance(t, ast.Attribute) and isinstance(t.value, ast.Name) and t.value.id in ('cls', 'Rule', 'MethodMeek', 'MethodWIGM'):
+                    bad.append('%s:%d' % (mn, n.lineno))
+    scan(ctx, P, 'droop/rules/*.py', 'rule-class-constants', 'rule classes never assign their class attributes at run time', not bad,
+         detail=str(bad))
+    # the profile is only read by Election and the rules
+    bad = []
+    for mn in RULE_MODULES + ['droop.election', 'droop.record', 'droop.candidate', 'droop.candidates']:
+        m = repo.module(mn)
+        for n in ast.walk(m.tree):
+            tgts = n.targets if isinstance(n, ast.Assign) else ([n.target] if isinstance(n, ast.AugAssign) else [])
+            for t in tgts:
+                src = norm_src(t)
+                if re.search(r'(electionProfile|profile)\.\w+(\[|$)', src) and not src.startswith('self.electionProfile') \
+                        or re.search(r'\.ranking\[', src) or re.match(r'bl\.', src):
+                    bad.append('%s:%d %s' % (mn, n.lineno, src))
+                if src.startswith('self.electionProfile.') or src.startswith('E.electionProfile.'):
+                    bad.append('%s:%d %s' % (mn, n.lineno, src))
+            if isinstance(n, ast.Call) and isinstance(n.func, ast.Attribute) and n.func.attr in ('append', 'remove', 'pop', 'add', 'extend') \
+                    and re.search(r'ranking|electionProfile|\bbl\b', norm_src(n.func.value)):
+                bad.append('%s:%d %s' % (mn, n.lineno, norm_src(n)))
+    scan(ctx, P, 'droop/election.py + rules', 'profile-read-only', 'Election and the rules only read the ElectionProfile (rankings are shared, never written)',
+         not bad, detail='; '.join(bad))
+
+
 GENERATORS = {
     'C12': [gen_c12_scans],
     'C13': [gen_c13_scans],
     'C14': [gen_c14_scans],
+    'C17': [gen_c17_scans],
+    'C20': [gen_c20_scans],
 }
